@@ -33,8 +33,11 @@ impl<'a> SmallKey for &'a str {
     fn idx(&self) -> u8 {
         word_idx(self)
     }
-    fn from_idx(i: u8) -> Self {
-        CLASS_WORDS[(i % 3) as usize]
+    fn table<'t>() -> &'t [Self]
+    where
+        Self: 't,
+    {
+        &CLASS_WORDS
     }
 }
 
@@ -55,13 +58,11 @@ impl SmallKey for Attribute {
     fn idx(&self) -> u8 {
         *self as u8
     }
-    fn from_idx(i: u8) -> Self {
-        match i {
-            0 => Attribute::Class,
-            1 => Attribute::Name,
-            2 => Attribute::DisplayName,
-            _ => Attribute::Mail,
-        }
+    fn table<'t>() -> &'t [Self]
+    where
+        Self: 't,
+    {
+        &[Attribute::Class, Attribute::Name, Attribute::DisplayName, Attribute::Mail]
     }
 }
 impl PartialEq<Attribute> for &Attribute {
@@ -83,8 +84,11 @@ impl SmallKey for String {
     fn idx(&self) -> u8 {
         word_idx(self.0)
     }
-    fn from_idx(i: u8) -> Self {
-        String(CLASS_WORDS[(i % 3) as usize])
+    fn table<'t>() -> &'t [Self]
+    where
+        Self: 't,
+    {
+        &[String("g"), String("p"), String("r")]
     }
 }
 
